@@ -98,10 +98,11 @@ OVERRIDES = {
     "transfer_to_new_account_pda": {"old_marginfi_account": "accA", "new_authority": "nu",
                                     "new_marginfi_account": "pda[marginfi;s:marginfi_account;k:gA;k:nu;n2:3;n2:0]"},
     "marginfi_account_close": {"marginfi_account": "accE"},
+    # end_flashloan runs alone on an account whose IN_FLASHLOAN flag is set (start_flashloan is a separate cell)
+    "lending_account_end_flashloan": {"_tw": ["aflag:accA:2:1", "aflag:accB:2:1"]},
     "lending_account_withdraw_emissions_permissionless": {"destination_account": "u.ataem"},
     "init_global_fee_state": {"_tw": ["del:fs"]},
     "init_staked_settings": {"_tw": ["del:ssA"]},
-    "propagate_staked_settings": {"bank": "bk1", "_mode": "val"},
     "start_liquidation": {"marginfi_account": "accU", "liquidation_record": "accU.rec", "liquidation_receiver": "liq"},
     "end_liquidation": {"marginfi_account": "accU", "liquidation_record": "accU.rec", "liquidation_receiver": "liq",
                         "_mtw": ["aflag:accU:16:1", "recv:accU.rec:liq"]},
@@ -113,6 +114,44 @@ OVERRIDES = {
     "init_bank_metadata": {"bank": "bk2", "metadata": "pda[marginfi;s:metadata;k:bk2]"},
     "purge_deleverage_balance": {"marginfi_account": "accT", "bank": "bkT"},
 }
+
+NB = "pda[marginfi;k:gA;k:m1;n8:7]"
+NBLVA = "pda[marginfi;s:liquidity_vault_auth;k:nb]"
+KAMINO_COMMON = {"lending_market": "klm", "integration_acc_1": "kres", "kamino_program": "PROG:kamino",
+                 "farms_program": "PROG:farms", "collateral_token_program": "PROG:token",
+                 "liquidity_token_program": "PROG:token", "reserve_liquidity_mint": "m1"}
+DRIFT_COMMON = {"integration_acc_1": "dsm", "drift_program": "PROG:drift"}
+SOLEND_COMMON = {"integration_acc_1": "sres", "solend_program": "PROG:solend", "reserve_liquidity_supply": "s.t1",
+                 "reserve_collateral_supply": "s.t2"}
+OVERRIDES.update({
+    "kamino_init_obligation": dict(KAMINO_COMMON, bank="bkK0", signer_token_account="payer.t1",
+                                   integration_acc_2="bkK0.kobl", reserve_liquidity_supply="s.t1",
+                                   reserve_destination_deposit_collateral="s.t2"),
+    "kamino_deposit": dict(KAMINO_COMMON, bank="bkK", integration_acc_2="bkK.kobl"),
+    "kamino_withdraw": dict(KAMINO_COMMON, bank="bkK", integration_acc_2="bkK.kobl"),
+    "lending_pool_add_bank_kamino": dict(new_bank_vaults("nb"), bank="nb", integration_acc_1="kres",
+                                         integration_acc_2="pda[kamino;n1:0;n1:0;k:nblva;k:klm;k:PROG:system;k:PROG:system]",
+                                         _al=["nb=" + NB, "nblva=" + NBLVA]),
+    "kamino_harvest_reward": {"bank": "bkK", "destination_token_account": "fwal.ataem", "reward_mint": "em",
+                              "farms_program": "PROG:farms"},
+    "lending_pool_add_bank_drift": dict(new_bank_vaults("nb"), bank="nb", integration_acc_1="dsm",
+                                        integration_acc_2="pda[drift;s:user;k:nblva;n2:0]",
+                                        integration_acc_3="pda[drift;s:user_stats;k:nblva]",
+                                        _al=["nb=" + NB, "nblva=" + NBLVA]),
+    "drift_init_user": dict(DRIFT_COMMON, bank="bkD0", signer_token_account="payer.t1", integration_acc_2="bkD0.duser",
+                            integration_acc_3="bkD0.dstats"),
+    "drift_deposit": dict(DRIFT_COMMON, bank="bkD", integration_acc_2="bkD.duser", integration_acc_3="bkD.dstats"),
+    "drift_withdraw": dict(DRIFT_COMMON, bank="bkD", integration_acc_2="bkD.duser", integration_acc_3="bkD.dstats"),
+    "drift_harvest_reward": {"bank": "bkDh", "integration_acc_2": "bkDh.duser", "integration_acc_3": "bkDh.dstats",
+                             "intermediary_token_account": "bkDh.lva.ataem", "destination_token_account": "fwal.ataem",
+                             "harvest_drift_spot_market": "dsm2", "reward_mint": "em", "drift_program": "PROG:drift"},
+    "lending_pool_add_bank_solend": dict(new_bank_vaults("nb"), bank="nb", integration_acc_1="sres",
+                                         integration_acc_2="pda[marginfi;s:solend_obligation;k:nb]", _al=["nb=" + NB]),
+    "solend_init_obligation": dict(SOLEND_COMMON, bank="bkS0", signer_token_account="payer.t1", integration_acc_2="bkS0.sobl"),
+    "solend_deposit": dict(SOLEND_COMMON, bank="bkS", integration_acc_2="bkS.sobl"),
+    "solend_withdraw": dict(SOLEND_COMMON, bank="bkS", integration_acc_2="bkS.sobl"),
+    "propagate_staked_settings": {"bank": "bkSt"},
+})
 
 VENUE = ("kamino_", "drift_", "solend_", "lending_pool_add_bank_kamino", "lending_pool_add_bank_drift",
          "lending_pool_add_bank_solend")
@@ -141,6 +180,8 @@ def base(ix):
             o = DEFAULTS[n]
         elif f["opt"]:
             o = "NONE"
+        elif f["w"] in ("WUnchecked", "WSystemAccount") and f["seeds"] is None and f["address"] is None and not f["has_one"]:
+            o = "new:" + n          # a pass-through account of a venue CPI: any (non-existent) key
         else:
             raise KeyError(f"no base object for field {ix}.{n}")
         fields.append((n, o))
